@@ -445,6 +445,13 @@ def judge_planting(ctx, res, item, r):
                 res.violate(f'faulty specification ({fault}) refused with {kind} instead of the library error on the {path} path', case, obs[path], 'BiogemeError', where=f'audit:{path}')
         if fault in ('valid_var', 'valid_num') and not panel and kind != 'ok' and all(slot_type(c) == 'any' and c[0] not in ('MonteCarlo', 'Integrate', 'PanelLikelihoodTrajectory') for c in chain):
             res.violate(f'valid specification refused on the {path} path', case, obs[path], 'accepted', where=f'audit:{path}')
+    # on panel data a data variable that is not inside the trajectory operator must be refused by BIOGEME(...)
+    if panel and fault == 'valid_var' and not any(c[0] == 'PanelLikelihoodTrajectory' for c in chain):
+        kind, msg = obs['bio']
+        if kind == 'ok':
+            res.violate('panel data: a variable outside PanelLikelihoodTrajectory is accepted on the bio path', case, obs['bio'], 'BiogemeError', where='audit:bio')
+        elif kind != 'BiogemeError':
+            res.violate(f'panel data: a variable outside PanelLikelihoodTrajectory is refused with {kind}', case, obs['bio'], 'BiogemeError', where='audit:bio')
     req = {'op': 'audit', 'dag': nodes, 'root': root, 'cols': ['x', 'ID'], 'panel': panel}
 
     def cb(ans, obs=obs, case=case):
@@ -742,9 +749,9 @@ def check(ctx) -> Result:
         for c in ctxs:
             if fault in MAIN or not ctx.quick or rng.random() < 0.2:
                 items.append([fault, [c], False])
-    for fault in ['unknown_column', 'draws']:
+    for fault in ['unknown_column', 'draws', 'valid_var']:
         for c in ctxs:
-            if not ctx.quick or rng.random() < 0.5:
+            if not ctx.quick or fault == 'valid_var' or rng.random() < 0.5:
                 items.append([fault, [c], True])
     # deeper contexts (thorough: all pairs for the main faults)
     if ctx.quick:
